@@ -222,9 +222,21 @@ func (o *observer) AfterEvent(i int, e sim.Event, w *sim.World, m *sim.Model) er
 		o.named[e.CDP] = true
 	}
 	if spec.Config.Disk {
-		want := len(o.named) + len(spec.Config.ConfFiles) + len(spec.Config.ConfURLs)
-		if len(cur) != want {
-			return fmt.Errorf("work_dir holds %d store directories for %d distinct locations used so far (CDP sets named: %v, configured: %d)", len(cur), want, keysOf(o.named), want-len(o.named))
+		// upper bound: one store per distinct location used so far; lower bound: one store per distinct location whose
+		// list is (or was) in force - an implementation may create a store lazily, but two locations with a list in
+		// force can never share one
+		upper := len(o.named) + len(spec.Config.ConfFiles) + len(spec.Config.ConfURLs)
+		lower := len(spec.Config.ConfFiles) + len(spec.Config.ConfURLs)
+		for c := range spec.CDPs {
+			if _, loaded := m.InForce(c); loaded || m.Persisted(c) {
+				lower++
+			}
+		}
+		if len(cur) > upper {
+			return fmt.Errorf("work_dir holds %d store directories although only %d distinct locations were used so far (CDP sets named: %v)", len(cur), upper, keysOf(o.named))
+		}
+		if len(cur) < lower {
+			return fmt.Errorf("work_dir holds %d store directories although %d distinct locations have a list in force or on disk: distinct locations share a store", len(cur), lower)
 		}
 	} else if len(cur) != 0 {
 		return fmt.Errorf("memory storage created store directories in work_dir: %v", cur)
@@ -302,7 +314,7 @@ var spec = ev.Spec[sim.Spec]{
 	ID:          "C20",
 	Gen:         genCase,
 	Run:         runCase,
-	Rule:        "histories on a real checker (sim engine: handshakes, origin states incl. failing loads/refreshes, ticks, restarts) whose work_dir sits in a sandbox with decoys next to it, foreign files inside it (names resembling crl_*_tmp and a 64-hex store name) and TMPDIR redirected to an inspected directory; location strings carry hostile query strings (path traversal, %2f / %5c, unicode, 1.5 KiB, NUL, the temp pattern) and pairs that differ only in the query string or only in the port; work_dir is spelled canonically, with a trailing slash or with a /./ component. After EVERY event: nothing outside work_dir was created, deleted or modified; no crl_*_tmp remains; foreign files and directory are intact; no store directory disappeared; on disk the number of store directories equals the number of distinct locations used so far (also across restarts), in memory there are none. Verdicts are still compared with the reference model. Non-trivial: a history with a failed load, a restart or a hostile location string.",
+	Rule:        "histories on a real checker (sim engine: handshakes, origin states incl. failing loads/refreshes, ticks, restarts) whose work_dir sits in a sandbox with decoys next to it, foreign files inside it (names resembling crl_*_tmp and a 64-hex store name) and TMPDIR redirected to an inspected directory; location strings carry hostile query strings (path traversal, %2f / %5c, unicode, 1.5 KiB, NUL, the temp pattern) and pairs that differ only in the query string or only in the port; work_dir is spelled canonically, with a trailing slash or with a /./ component. After EVERY event: nothing outside work_dir was created, deleted or modified; no crl_*_tmp remains; foreign files and directory are intact; no store directory disappeared; on disk the number of store directories lies between the number of distinct locations with a list in force or persisted and the number of distinct locations used so far (also across restarts; two locations never share a store), in memory there are none. Verdicts are still compared with the reference model. Non-trivial: a history with a failed load, a restart or a hostile location string.",
 	Assumptions: []string{"locations equal after the loader's own URL normalisation may share a store and are not generated as 'distinct'"},
 }
 
